@@ -72,6 +72,20 @@ class _NetconanFinder(importlib.abc.MetaPathFinder):
 _finder = _NetconanFinder()
 
 
+class _TmpNames:
+    """Replacement for tempfile's random name sequence (which is seeded from the kernel, not from a seam)."""
+
+    def __init__(self, key):
+        self.key, self.n = key, 0
+
+    def __iter__(self):
+        return self
+
+    def __next__(self):
+        self.n += 1
+        return hashlib.sha1(b"tmpname:%d:%d" % (self.key, self.n)).hexdigest()[:8]
+
+
 class _ByteStream:
     def __init__(self, key):
         self.key = str(key).encode()
@@ -206,6 +220,7 @@ class SimProcess:
         self._install_set_order()
         self._urandom = _ByteStream(self.knobs.get("urandom_key", 0))
         self._rand_state = None
+        self._tmp_names = None
         self._active = False
 
     # -- hash-seed seam ----------------------------------------------------
@@ -258,6 +273,13 @@ class SimProcess:
         # the capture handler keeps INFO and above; the root level itself is a knob (a host application, or `-l DEBUG`,
         # may run netconan with debug logging on: the output must not depend on it)
         root.setLevel(getattr(logging, str(self.knobs.get("log_level") or "INFO")))
+        # the process's temporary directory lives on the simulated disk; names come from the keyed stream
+        import tempfile
+        self._saved_tmp = (tempfile.tempdir, tempfile._name_sequence)
+        tempfile.tempdir = "/simfs/.systmp"
+        if self._tmp_names is None:
+            self._tmp_names = _TmpNames(self.knobs.get("urandom_key", 0))
+        tempfile._name_sequence = self._tmp_names
         self._saved_rand = random.getstate()
         if self._rand_state is None:
             random.seed(self.knobs.get("rand_seed", 0))
@@ -305,6 +327,8 @@ class SimProcess:
 
     def __exit__(self, *a):
         import builtins
+        import tempfile
+        tempfile.tempdir, tempfile._name_sequence = self._saved_tmp
         builtins.hash = self._saved_hash
         self._clock.uninstall()
         random._urandom, os.urandom, time.time, time.time_ns, os.getpid = self._saved_fns
